@@ -162,20 +162,6 @@ pub fn cases(tier: &str) -> Vec<Case> {
             order: vec![0; n],
         });
     }
-    // two coroutines, all interleavings (quick: without Delay0, which differs from Until only in the
-    // timestamp it asks for)
-    let pair_alpha: Vec<Step> = STEPS.iter().copied().filter(|s| tier == "thorough" || *s != Step::Delay0).collect();
-    let ps = programs_over(&pair_alpha, l2);
-    for a in &ps {
-        for b in &ps {
-            for order in interleavings(&[resumes(a), resumes(b)]) {
-                out.push(Case {
-                    programs: vec![a.clone(), b.clone()],
-                    order,
-                });
-            }
-        }
-    }
     // nested: coroutine 0 resumes coroutine 1 from inside its body
     let inner = programs(2);
     let outer: Vec<Vec<Step>> = {
@@ -214,6 +200,21 @@ pub fn cases(tier: &str) -> Vec<Case> {
             }
         }
     }
+    // two coroutines, all interleavings (quick: without Delay0, which differs from Until only in the
+    // timestamp it asks for)
+    let pair_alpha: Vec<Step> = STEPS.iter().copied().filter(|s| tier == "thorough" || *s != Step::Delay0).collect();
+    let ps = programs_over(&pair_alpha, l2);
+    for a in &ps {
+        for b in &ps {
+            for order in interleavings(&[resumes(a), resumes(b)]) {
+                out.push(Case {
+                    programs: vec![a.clone(), b.clone()],
+                    order,
+                });
+            }
+        }
+    }
+
     // three coroutines
     let ps = programs(l3);
     for a in &ps {
